@@ -105,6 +105,36 @@ def _forward_upvars(x, env_local, env_is_ref, caps):
     return x
 
 
+def _retarget_env(caller, n0, l0, envty, caps):
+    """After a closure body was inlined (blocks n0.., locals l0..): make its uses of captured variables uses of the caller's variables."""
+    blocks = caller["blocks"]
+    if not caps:
+        return
+    env_local = l0 + 1       # the closure body's own _1 after renumbering
+    # rustc splits nested dereferences with `deref_copy` temporaries (`_t = deref_copy (*_1).0; (*_t) = ..`): undo that first
+    cfd = {}
+    for bi_ in range(n0, len(blocks)):
+        for st in blocks[bi_]["stmts"]:
+            if st["k"] == "assign" and not st["pl"]["p"] and st["rv"].get("k") == "use" and st["rv"]["ops"][0].get("k") == "copy" \
+                    and (st["rv"].get("cfd") or st["rv"]["ops"][0]["pl"]["l"] == env_local) and st["pl"]["l"] >= l0:
+                cfd.setdefault(st["pl"]["l"], []).append(st["rv"]["ops"][0]["pl"])
+    # only temporaries with one and the same source everywhere
+    cfd = {k_: v_[0] for k_, v_ in cfd.items() if all(x_ == v_[0] for x_ in v_)}
+
+    def undo_cfd(x):
+        if isinstance(x, dict):
+            if "l" in x and "p" in x and isinstance(x["l"], int) and x["l"] in cfd and x["p"] and x["p"][0][0] == "deref":
+                src = cfd[x["l"]]
+                return {"l": src["l"], "p": copy.deepcopy(src["p"]) + copy.deepcopy(x["p"])}
+            return {k: undo_cfd(v) for k, v in x.items()}
+        if isinstance(x, list):
+            return [undo_cfd(v) for v in x]
+        return x
+    for bi_ in range(n0, len(blocks)):
+        nb_ = undo_cfd(blocks[bi_]) if cfd else blocks[bi_]
+        blocks[bi_] = _forward_upvars(nb_, env_local, envty.startswith("&"), caps)
+
+
 def _closure_def(body, op):
     """Definition path of the closure held by operand `op` (a local assigned once from a closure aggregate), or ('fn', const operand)."""
     if op.get("k") == "const" and op.get("fn"):
@@ -133,6 +163,69 @@ def _single_def_call(body, l):
         if t.get("k") == "call" and t["dest"]["l"] == l and not t["dest"]["p"]:
             found.append((bi, t))
     return found[0] if len(found) == 1 and found[0] is not None else None
+
+
+def _resolve_closure(body, op, depth=0):
+    """Definition path of the closure an operand denotes, following moves, copies and (re)borrows of locals with a single definition."""
+    if depth > 6 or op.get("k") not in ("move", "copy"):
+        return None
+    pl = op["pl"]
+    if [e for e in pl["p"] if e[0] != "deref"]:
+        return None
+    l = pl["l"]
+    defs = [st["rv"] for bb in body["blocks"] for st in bb["stmts"] if st["k"] == "assign" and st["pl"]["l"] == l and not st["pl"]["p"]]
+    calls = [bb["term"] for bb in body["blocks"] if bb["term"].get("k") == "call" and bb["term"]["dest"]["l"] == l and not bb["term"]["dest"]["p"]]
+    if len(defs) != 1 or calls:
+        return None
+    rv = defs[0]
+    if rv.get("k") == "agg" and rv.get("agg") == "closure":
+        return (rv["def"], l)
+    if rv.get("k") == "use":
+        return _resolve_closure(body, rv["ops"][0], depth + 1)
+    if rv.get("k") == "ref":
+        return _resolve_closure(body, {"k": "copy", "pl": rv["pl"]}, depth + 1)
+    return None
+
+
+def _inline_closure_call(caller, bi, by_path):
+    """`f(x, y)` where f is a closure defined in this very body (`<closure as Fn>::call(&f, (x, y))`): replaced by the closure's body."""
+    blocks = caller["blocks"]
+    t = blocks[bi]["term"]
+    if len(t.get("args", [])) != 2 or t.get("target") is None:
+        return False
+    rc = _resolve_closure(caller, t["args"][0])
+    if rc is None or rc[0] not in by_path:
+        return False
+    cbody = copy.deepcopy(by_path[rc[0]])
+    locs = caller["locals"]
+    sp = t.get("sp") or t.get("fnsp")
+    envty = cbody["locals"][1]["ty"] if len(cbody["locals"]) > 1 else ""
+    a0 = t["args"][0]
+    a0ty = locs[a0["pl"]["l"]]["ty"] if not a0["pl"]["p"] else "&"
+    args = []
+    if envty.startswith("&") and not a0ty.startswith("&"):
+        locs.append({"ty": envty})
+        l_env = len(locs) - 1
+        blocks[bi]["stmts"].append({"k": "assign", "pl": {"l": l_env, "p": []}, "rv": {"k": "ref", "bk": "mut" if envty.startswith("&mut") else "shared", "pl": copy.deepcopy(a0["pl"])}, "sp": sp})
+        args.append({"k": "move", "pl": {"l": l_env, "p": []}})
+    else:
+        args.append(copy.deepcopy(a0))
+    tup = t["args"][1]
+    nparams = cbody["argc"] - 1
+    for i in range(nparams):
+        if tup.get("k") in ("move", "copy"):
+            args.append({"k": "move", "pl": {"l": tup["pl"]["l"], "p": copy.deepcopy(tup["pl"]["p"]) + [["field", i, str(i)]]}})
+        else:
+            return False
+    fake = dict(t)
+    fake["args"] = args
+    blocks[bi]["term"] = fake
+    n0, l0 = len(blocks), len(locs)
+    # the closure local that holds the aggregate (for upvar forwarding)
+    caps = _capture_places(caller, {"k": "move", "pl": {"l": rc[1], "p": []}})
+    _inline_one(caller, bi, cbody)
+    _retarget_env(caller, n0, l0, envty, caps)
+    return True
 
 
 def _desugar_map_collect(caller, bi, by_path):
@@ -292,30 +385,7 @@ def _desugar_for_each(caller, bi, by_path, collect_into_vec=False, try_mode=Fals
         n0, l0 = len(blocks), len(locs)
         caps = _capture_places(caller, f_op)
         _inline_one(caller, B, copy.deepcopy(by_path[cd[1]]))
-        if caps:
-            env_local = l0 + 1       # the closure body's own _1 after renumbering
-            # rustc splits nested dereferences with `deref_copy` temporaries (`_t = deref_copy (*_1).0; (*_t) = ..`): undo that first
-            cfd = {}
-            for bi_ in range(n0, len(blocks)):
-                for st in blocks[bi_]["stmts"]:
-                    if st["k"] == "assign" and not st["pl"]["p"] and st["rv"].get("k") == "use" and st["rv"]["ops"][0].get("k") == "copy" \
-                            and (st["rv"].get("cfd") or st["rv"]["ops"][0]["pl"]["l"] == env_local) and st["pl"]["l"] >= l0:
-                        cfd.setdefault(st["pl"]["l"], []).append(st["rv"]["ops"][0]["pl"])
-            # only temporaries with one and the same source everywhere
-            cfd = {k_: v_[0] for k_, v_ in cfd.items() if all(x_ == v_[0] for x_ in v_)}
-
-            def undo_cfd(x):
-                if isinstance(x, dict):
-                    if "l" in x and "p" in x and isinstance(x["l"], int) and x["l"] in cfd and x["p"] and x["p"][0][0] == "deref":
-                        src = cfd[x["l"]]
-                        return {"l": src["l"], "p": copy.deepcopy(src["p"]) + copy.deepcopy(x["p"])}
-                    return {k: undo_cfd(v) for k, v in x.items()}
-                if isinstance(x, list):
-                    return [undo_cfd(v) for v in x]
-                return x
-            for bi_ in range(n0, len(blocks)):
-                nb_ = undo_cfd(blocks[bi_]) if cfd else blocks[bi_]
-                blocks[bi_] = _forward_upvars(nb_, env_local, envty.startswith("&"), caps)
+        _retarget_env(caller, n0, l0, envty, caps)
     return True
 
 
@@ -370,6 +440,23 @@ def inline_new_helpers(raw, baseline=None):
             for bi, tgt in sites:
                 _inline_one(b, bi, pristine[tgt])
                 done.append((b["path"], tgt))
+    # closures defined in a body and called there directly (`let step = |x| ..; step(v)`), typically after a helper taking `impl Fn` was inlined
+    closures = None
+    for b in raw["bodies"]:
+        if not any(c == b["path"] for c, _ in done):
+            continue            # only bodies that were rewritten above: the pinned tree's own direct closure calls stay as they are
+        for _ in range(MAX_DEPTH):
+            sites = [bi for bi, bb in enumerate(b["blocks"]) if bb["term"].get("k") == "call" and not bb.get("cleanup")
+                     and re.search(r"ops::(function::)?Fn(Mut|Once)?::call(_mut|_once)?$", bb["term"].get("callee") or "")]
+            if closures is None:
+                closures = {p_: x_ for p_, x_ in by_path.items() if "{closure" in p_}
+            n_ = 0
+            for bi in sites:
+                if len(b["blocks"]) <= MAX_BLOCKS and _inline_closure_call(b, bi, closures):
+                    n_ += 1
+                    done.append((b["path"], "closure-call"))
+            if not n_:
+                break
     # helpers whose every call was replaced: their own bodies no longer need to be scanned (the code lives in the callers now)
     still_called = set()
     for b in raw["bodies"]:
